@@ -23,6 +23,25 @@ from .core import CheckError
 
 eventcycle.EventQueues.tick = 0
 
+
+class _NoSleepTime(object):
+    """Stand-in for the `time` module inside pcbasic.basic.eventcycle: the engine's
+    sleep(0)/sleep(tick) calls only yield the GIL to interface threads, of which a headless
+    checker has none; they cost ~100 us each and carry no semantics."""
+
+    def __init__(self, real):
+        self._real = real
+
+    def sleep(self, seconds):
+        return None
+
+    def __getattr__(self, name):
+        return getattr(self._real, name)
+
+
+if not isinstance(eventcycle.time, _NoSleepTime):
+    eventcycle.time = _NoSleepTime(eventcycle.time)
+
 Session = api.Session
 
 
@@ -48,14 +67,21 @@ class ScriptedInputs(object):
         self._pending = list(self.schedule.get(0, ()))
         self._closed = False
         self.delivered = []
+        self.trace = None
 
     # Queue interface used by pcbasic
     def get(self, block=False, timeout=None):
-        if self._pending:
+        while self._pending:
             ev = self._pending.pop(0)
+            if callable(ev):
+                # environment action at this poll (e.g. advance the virtual clock)
+                ev()
+                continue
             self.delivered.append((self.polls, ev))
             return ev
         # end of this poll
+        if self.trace is not None:
+            self.trace.append(('poll', self.polls))
         self.polls += 1
         self._pending = list(self.schedule.get(self.polls, ()))
         if self.polls >= self.horizon:
